@@ -1,0 +1,21 @@
+//go:build verif
+
+package px
+
+// Verification hook (build tag `verif` only, add-only): as VerifDescribe, and for the mismatches that carry an
+// expected and an actual type (type, pattern, size and count mismatches) whether one of them is nil. The text
+// of such a mismatch is worded from the two types, so a nil type there is a nil dereference when the
+// message is formatted. Nothing here is compiled without the tag.
+
+// VerifTypedMismatch is one mismatch: class, path, and the presence of the types it carries.
+type VerifTypedMismatch struct {
+	Class       string          `json:"class"`
+	Path        []VerifPathElem `json:"path"`
+	HasTypes    bool            `json:"has_types"`    // the mismatch carries an expected and an actual type
+	ExpectedNil bool            `json:"expected_nil"` // HasTypes and the expected type is nil
+	ActualNil   bool            `json:"actual_nil"`   // HasTypes and the actual type is nil
+}
+
+// VerifDescribeTyped returns what DescribeMismatch(name, expected, actual) formats. It is set by the package
+// that implements the describer.
+var VerifDescribeTyped func(name string, expected, actual Type) []VerifTypedMismatch
